@@ -21,6 +21,7 @@
 #include <float.h>
 #include <limits.h>
 #include <stdlib.h>
+#include <time.h>
 #include <limits.h>
 /* a visit function stops a traversal with "a non-zero value": any of them, which the traversal must hand back unchanged */
 static const int stopvals[12] = { -3, -2, -1, 11, 1, 2, 3, 256, 65536, -65536, INT_MIN, INT_MAX };
@@ -1194,9 +1195,15 @@ static void huge_chains(const plan_t *p)
     cstl_hash_init(&ht, offsetof(struct xelem, hn));
     TRY(cstl_hash_resize(&ht, nb, cstl_hash_div));
     g_run.opkind = O_INSERT;
-    for (i = 0; i < n; i++) {
-        pool[i].magic = EMAGIC; pool[i].tail = ~EMAGIC; pool[i].id = (int)i; pool[i].nk = 0;
-        g_inlib = 1; cstl_hash_insert(&ht, i, &pool[i]); g_inlib = 0;
+    {
+        clock_t t0 = clock();
+        for (i = 0; i < n; i++) {
+            pool[i].magic = EMAGIC; pool[i].tail = ~EMAGIC; pool[i].id = (int)i; pool[i].nk = 0;
+            g_inlib = 1; cstl_hash_insert(&ht, i, &pool[i]); g_inlib = 0;
+            /* an implementation that inserts at the END of a chain is correct and makes this loop quadratic: nothing promises
+             * constant-time insertion into one bucket. If the build is that slow the chains stay as long as they have become. */
+            if ((i & 4095) == 4095 && i >= 16383 && (double)(clock() - t0) / CLOCKS_PER_SEC > 8.0) { n = i + 1; PROBE("huge_chains_cut_short_slow_insert"); break; }
+        }
     }
     if (cstl_hash_size(&ht) != n) VIOL("size", "table with huge chains reports size %zu after %zu inserts", cstl_hash_size(&ht), n);
     g_run.opkind = O_RESIZE;
